@@ -724,7 +724,8 @@ impl LogDoc {
     }
 }
 
-pub const LOG_FEATURES: [&str; 13] = [
+pub const LOG_FEATURES: [&str; 14] = [
+    "near_miss_of_a_line_marker",
     "lines_with_non_ascii_bytes",
     "comment_lines",
     "unknown_lines",
@@ -772,6 +773,12 @@ pub fn render_log(doc: &LogDoc, ignore_unknown: bool, l: &mut Layout) -> Doc {
                 if l.on() {
                     // free text (any byte but LF) that cannot be taken for a "c ", "v " or "s " line
                     let mut x = vec![*l.pick(&[b"x", b"\xc3", b"#", b"V"]).first().unwrap()];
+                    if l.on() {
+                        // near misses of the recognised line starts "v ", "s " and "c ": the marker letter
+                        // followed by anything but a space
+                        x = l.pick(&[b"v\t", b"s\t", b"c\t", b"vv", b"v-", b"v1", b"v0", b"sS", b"s\r", b"v\r", b"v\x0b", b"cc"]).to_vec();
+                        lfeat(b, "near_miss_of_a_line_marker");
+                    }
                     x.extend_from_slice(&l.text());
                     lfeat(b, "lines_with_non_ascii_bytes");
                     b.raw(&x);
